@@ -138,7 +138,7 @@ def check_primitive(ctx, fi, spec, flags):
     ex = SymExec(fi, flags=flags, call_hook=vec_hook, vectors=True)
     for p in fi.params:
         if p != 'self':
-            ex.env[p] = sym(p) if p in (spec['eps'], spec['sens']) else Opaque(p, 'param')
+            ex.env[p] = sym(p) if p in (spec['eps'], spec['sens'], 'sensitivity') else Opaque(p, 'param')
     if spec.get('base') and flags.get(spec['base']) is None and spec.get('base') in flags:
         ex.env.pop(spec['base'], None)
     ex.run()
